@@ -16,6 +16,7 @@ through parameters of tsdate functions they are passed to (`self.m(...)`, nested
     any other method call on an alias that is not in the read-only list -> call / tableCall
     an alias handed to a function the analysis cannot resolve, stored in an attribute or a
     container, or touched through getattr/setattr -> escape (never allowed)
+    `self.ts` bound to anything but the constructor parameter `ts` -> escape
 
 Output: lean/TsdateVerif/Gen/WriteSet.lean (`writes : List (String × WOp)`, `writeSet`).
 The translator fails loudly (TranslateError) when the roots are missing.
@@ -352,6 +353,14 @@ def analyse():
         raise G.TranslateError("no get_modified_ts method in tsdate/core.py")
     for q, fn, cls in roots:
         A.analyze("core", q, fn, {}, cls)
+    # the tree sequence whose tables are dumped must be the caller's: `self.ts` may only be bound to the
+    # constructor parameter `ts` (a `self.ts = ts.simplify()` would change the input before it is copied)
+    for cname, cls in classes.items():
+        for node in ast.walk(cls):
+            if isinstance(node, ast.Assign):
+                for t in node.targets:
+                    if G.dotted(t) == "self.ts" and not (isinstance(node.value, ast.Name) and node.value.id == "ts"):
+                        A.record(f"{cname}", ("escape", f"self.ts rebound to {ast.unparse(node.value)[:60]}"))
     if not A.writes:
         raise G.TranslateError("no table write found: the analysis no longer understands get_modified_ts")
     sources = [A.modules[m][0] for m in sorted(A.modules)]
